@@ -595,12 +595,29 @@ func c32sRun(c *vcommon.Case, cfg c32lCfg) {
 					continue
 				}
 				c.Eval(1)
-				missing := 0
+				// a block that Process parked in unreadyBlocks (with an ancestor search queued) is held, not lost:
+				// conservation is delivered = imported + known + held
+				held := map[common.Hash]bool{}
+				fs.unreadyBlocks.mtx.RLock()
+				for _, fr := range fs.unreadyBlocks.disjointFragments {
+					for _, bd := range fr {
+						held[bd.Hash] = true
+					}
+				}
+				fs.unreadyBlocks.mtx.RUnlock()
+				missing, parked := 0, 0
 				for _, bd := range cl.rp.bds {
 					if !reached[bd] && !m.known[bd.Hash] {
-						missing++
+						if held[bd.Hash] {
+							parked++
+						} else {
+							missing++
+						}
 					}
 					known0[bd.Hash] = true // the next range of the same call hangs on this one
+				}
+				if parked > 0 {
+					c.Count("svc_honest_range_blocks_parked_in_unready_blocks_not_lost", parked)
 				}
 				if missing > 0 {
 					c.Violation("result-lost", fmt.Sprintf("%d block(s) of the honest response %s never reached the importer and are not known afterwards", missing, cl.descr), witness(nil))
